@@ -30,8 +30,17 @@ TInit ==
   /\ closed = FALSE
   /\ InitWith(Traces[tid].cfg)
 
+\* Real library models (flux, conversion, collection - C17) do not log; when a
+\* trace is marked `real` their calls are steps the recording cannot see.
+RealKinds == {"flux", "conv", "collect"}
+IsReal == "real" \in DOMAIN Traces[tid] /\ Traces[tid].real
+AtRealModel ==
+  /\ pc = "run" /\ g <= NG
+  /\ IF m <= Len(cfg.pipe[g]) THEN cfg.pipe[g][m].kind \in RealKinds ELSE FALSE
+
 Silent ==
-  /\ (Validate \/ InitialEmpty \/ BeginStep \/ NextGroup \/ SkipDisabled \/ EndStep \/ Finish)
+  /\ \/ Validate \/ InitialEmpty \/ BeginStep \/ NextGroup \/ SkipDisabled \/ EndStep \/ Finish
+     \/ (IsReal /\ AtRealModel /\ RunModel)
   /\ UNCHANGED << tid, l, closed >>
 
 \* A field that the recording left out is not compared: each property's
@@ -47,6 +56,7 @@ CallMatches(c) ==
 
 TCall ==
   /\ HasEv("call")
+  /\ ~ (IsReal /\ AtRealModel)
   /\ (RunModel \/ ModelRaise)
   /\ CallMatches(calls'[Len(calls')])
   /\ l' = l + 1
@@ -83,11 +93,14 @@ FailureMatches ==
             /\ Ev.exc = error.exc
        ELSE Ev.exc = error.exc
 
+\* run_mode raised.  Either the run failed (a model raised, or the named
+\* deviation at EndStep), or the schedule was refused inside run_mode before
+\* any model executed (e.g. times assigned through the Readout setter).
 TFailed ==
   /\ HasEv("failed")
-  /\ pc = "failed"
   /\ ~ closed
-  /\ (Has("exc") => FailureMatches)
+  /\ \/ pc = "failed" /\ (Has("exc") => FailureMatches)
+     \/ pc = "rejected" /\ calls = << >>
   /\ closed' = TRUE /\ l' = l + 1
   /\ UNCHANGED << vars, tid >>
 
@@ -103,7 +116,7 @@ TRejected ==
 Diag ==
   /\ "DIAG" \in DOMAIN IOEnv
   /\ l <= Len(Traces[tid].events)
-  /\ \/ /\ Ev.e = "call" /\ (RunModel \/ ModelRaise)
+  /\ \/ /\ Ev.e = "call" /\ ~ (IsReal /\ AtRealModel) /\ (RunModel \/ ModelRaise)
         /\ ~ CallMatches(calls'[Len(calls')])
         /\ PrintT(<<"EXPECTED", tid, l, ToJson(calls'[Len(calls')])>>)
      \/ /\ Ev.e = "call" /\ pc \in {"done", "failed", "rejected"}
@@ -112,7 +125,7 @@ Diag ==
      \/ /\ Ev.e # "call" /\ pc \in {"done", "failed", "rejected"} /\ ~ closed
         /\ PrintT(<<"EXPECTED", tid, l, ToJson([pc |-> pc, result |-> result, error |-> error, imgdt |-> cfg.imgdt])>>)
         /\ UNCHANGED vars
-     \/ /\ Ev.e # "call" /\ pc = "run" /\ (RunModel \/ ModelRaise)
+     \/ /\ Ev.e # "call" /\ pc = "run" /\ ~ (IsReal /\ AtRealModel) /\ (RunModel \/ ModelRaise)
         /\ PrintT(<<"EXPECTED", tid, l, ToJson(calls'[Len(calls')])>>)
   /\ FALSE
   /\ UNCHANGED << tid, l, closed >>
